@@ -265,8 +265,11 @@ class MessagePackRpc(MessagePackDocument):
 
         if not six.PY2:
             if isinstance(msgname_or_error, bytes):
-                msgname_or_error = msgname_or_error.decode(
+                try:
+                    msgname_or_error = msgname_or_error.decode(
                                                    self.default_string_encoding)
+                except UnicodeDecodeError as e:
+                    raise MessagePackDecodeError(str(e))
 
         if msgtype is True or msgtype is False:
             raise MessagePackDecodeError("Unknown message type %r" % msgtype)
